@@ -7,6 +7,7 @@ import (
 
 	"github.com/go-kid/ioc/app"
 	"github.com/go-kid/ioc/configure"
+	"github.com/go-kid/ioc/configure/binder"
 	"github.com/go-kid/ioc/container"
 	"github.com/go-kid/ioc/container/processors"
 	"github.com/go-kid/ioc/definition"
@@ -31,6 +32,7 @@ func init() {
 			{Name: "sort-helper", Run: c12Direct, QuickS: 60, ThoroughS: 600},
 			{Name: "call-sites", Run: c12Sites, QuickS: 90, ThoroughS: 900},
 			{Name: "large-sets", Run: c12Large, Workers: 4, QuickS: 60, ThoroughS: 120},
+			{Name: "loaders-reinitialised", Run: c12Reinit, Workers: 4, QuickS: 30, ThoroughS: 60},
 		},
 	})
 }
@@ -777,5 +779,90 @@ func c12LargeRun(c *core.Ctx, prop string, runnersOnly bool) {
 		if c.S.Programs%200 == 1 {
 			c.Sample(map[string]any{"case": cs})
 		}
+	})
+}
+
+// ---- loaders added after a first Initialize: the second pass sequences all of them by the contract
+
+func c12Reinit(c *core.Ctx) {
+	type rc struct {
+		Seq   []int `json:"symbols"`
+		Split int   `json:"added_before_the_first_initialize"`
+	}
+	gen := func(yield func(rc) bool) {
+		seqs(3, 12, func(s []int) bool {
+			for k := 1; k < len(s); k++ {
+				if !yield(rc{append([]int{}, s...), k}) {
+					return false
+				}
+			}
+			return true
+		})
+	}
+	Cases(c, gen, func(c *core.Ctx, cs rc) {
+		rt := &scen.RT{}
+		var loaders []configure.Loader
+		for i, s := range cs.Seq {
+			p := scen.Part{Nm: fmt.Sprintf("p%d", i), O: c12Order(s), RT: rt}
+			doc := fmt.Sprintf("k%d: 1\n", i)
+			switch {
+			case c12Class(s) == 0:
+				loaders = append(loaders, &scen.LoadP{Part: p, Doc: doc})
+			case c12Class(s) == 1:
+				loaders = append(loaders, &scen.LoadO{Part: p, Doc: doc})
+			case s == c12Marker:
+				loaders = append(loaders, &scen.LoadM{Part: p, Doc: doc})
+			default:
+				loaders = append(loaders, &scen.LoadN{Part: p, Doc: doc})
+			}
+		}
+		cfg := configure.NewConfigure()
+		cfg.SetBinder(binder.NewViperBinder("yaml"))
+		var err1, err2 error
+		pan := scen.Protect(func() {
+			cfg.AddLoaders(loaders[:cs.Split]...)
+			err1 = cfg.Initialize()
+			rt.Log = nil
+			cfg.AddLoaders(loaders[cs.Split:]...)
+			err2 = cfg.Initialize()
+		})
+		c.S.Evaluations++
+		c.S.Programs++
+		c.S.States++
+		c.S.Nontrivial++
+		c.S.Transitions += int64(len(rt.Log))
+		var symn []string
+		for _, s := range cs.Seq {
+			symn = append(symn, c12Sym(s))
+		}
+		key := "C12/loaders-reinitialised/" + core.Hash(cs)
+		if pan != "" || err1 != nil || err2 != nil {
+			c.Outcome("reinit/failed")
+			c.Report(key, "start-failed", fmt.Sprintf("loaders %v, %d added before the first Initialize: %v %v %s", symn, cs.Split, err1, err2, pan), cs)
+			return
+		}
+		var classes, orders []int
+		seen := map[int]int{}
+		for _, e := range rt.Log {
+			var i int
+			if _, err := fmt.Sscanf(e, "load:p%d", &i); err == nil {
+				seen[i]++
+				classes = append(classes, c12Class(cs.Seq[i]))
+				orders = append(orders, c12Order(cs.Seq[i]))
+			}
+		}
+		for i := range cs.Seq {
+			if seen[i] != 1 {
+				c.Outcome("reinit/not-once")
+				c.Report(key, "not-exactly-once", fmt.Sprintf("loaders %v, %d added before the first Initialize: in the second pass loader p%d was invoked %d times; log %v", symn, cs.Split, i, seen[i], rt.Log), cs)
+				return
+			}
+		}
+		if msg := contractViolation(classes, orders); msg != "" {
+			c.Outcome("reinit/contract-violated")
+			c.Report(key, "order-contract", fmt.Sprintf("loaders %v, %d added before the first Initialize: the second pass invoked them as %v: %s", symn, cs.Split, rt.Log, msg), cs)
+			return
+		}
+		c.Outcome(fmt.Sprintf("reinit/ok/len=%d", len(cs.Seq)))
 	})
 }
